@@ -45,6 +45,30 @@ func genPFaultCase(t *rapid.T, prop string) *Case {
 		o.FewFields = true
 	}
 	wd := GenWorld(t, o)
+	if rapid.IntRange(0, 3).Draw(t, "striplast") == 0 {
+		// the first build keeps the (sorted) last field only as a stored field:
+		// later inputs have terms where earlier ones have an empty dictionary
+		last := ""
+		for _, it := range wd.Segs[0].Batch {
+			if it.Doc != nil {
+				for _, f := range it.Doc.Fields {
+					if f.Name > last {
+						last = f.Name
+					}
+				}
+			}
+		}
+		for _, it := range wd.Segs[0].Batch {
+			if it.Doc != nil {
+				for j := range it.Doc.Fields {
+					if it.Doc.Fields[j].Name == last {
+						it.Doc.Fields[j].Terms = nil
+						it.Doc.Fields[j].Store = true
+					}
+				}
+			}
+		}
+	}
 	pc := &PFaultCase{Seg: rapid.IntRange(0, 5).Draw(t, "seg")}
 	if rapid.IntRange(0, 3).Draw(t, "ismerge") != 0 {
 		pc.Merge = genMergeDef(t, len(wd.Segs))
